@@ -196,7 +196,11 @@ class Resolver:
         if isinstance(e, ast.Attribute):
             if self.selfname and isinstance(e.value, ast.Name) and e.value.id == self.selfname and e.value.id not in self.defs:
                 return ("field", e.attr)
-            return ("attr", T(e.value), e.attr)
+            base = T(e.value)
+            proj = self._record_projection(base, e.attr)
+            if proj is not None:
+                return proj
+            return ("attr", base, e.attr)
         if isinstance(e, ast.Call):
             f = e.func
             # cast(T, x) is transparent
@@ -271,6 +275,63 @@ class Resolver:
         if isinstance(e, ast.NamedExpr):
             return T(e.value)
         return ("expr", ast.unparse(e)[:80])
+
+    def _record_fields(self, cname):
+        """{field: index of the constructor argument} for a plain record class: its __init__ does nothing but
+        `self.<field> = <parameter>` and nothing else in the repository ever stores such a field."""
+        cache = self.m.__dict__.setdefault("_record_classes", {})
+        if cname in cache:
+            return cache[cname]
+        out = None
+        ci = self.m.classes.get(cname)
+        init = ci.methods.get("__init__") if ci is not None else None
+        if init is not None and len(init.params) >= 2 and not getattr(ci, "bases", None):
+            body = [st for st in init.node.body if not (isinstance(st, ast.Expr) and isinstance(st.value, ast.Constant))]
+            fields = {}
+            ok = bool(body)
+            for st in body:
+                if isinstance(st, ast.Assign) and len(st.targets) == 1 and isinstance(st.targets[0], ast.Attribute) and isinstance(st.targets[0].value, ast.Name) \
+                        and st.targets[0].value.id == init.params[0] and isinstance(st.value, ast.Name) and st.value.id in init.params[1:] and st.targets[0].attr not in fields:
+                    fields[st.targets[0].attr] = init.params.index(st.value.id) - 1
+                else:
+                    ok = False
+            if ok and set(ci.methods) <= {"__init__", "__repr__"}:
+                # no other store of these field names anywhere
+                for path_, (tree, _src) in self.m.trees.items():
+                    if path_.endswith("posc.py"):
+                        continue
+                    for n in ast.walk(tree):
+                        if isinstance(n, ast.Attribute) and isinstance(n.ctx, (ast.Store, ast.Del)) and n.attr in fields:
+                            inside = False
+                            p_ = n
+                            while p_ is not None:
+                                if p_ is init.node or p_ is getattr(init, "orig_node", None):
+                                    inside = True
+                                p_ = getattr(p_, "_parent", None)
+                            if not inside:
+                                ok = False
+                if ok:
+                    out = fields
+        cache[cname] = out
+        return out
+
+    def _record_projection(self, base, attr):
+        """<record constructed from arguments>.<field> is the argument (a private value class that only carries
+        a few values from one function to another)."""
+        if base[0] == "phi":
+            parts = [self._record_projection(a_, attr) for a_ in base[1]]
+            if all(p_ is not None for p_ in parts):
+                uniq = []
+                for p_ in parts:
+                    if p_ not in uniq:
+                        uniq.append(p_)
+                return uniq[0] if len(uniq) == 1 else ("phi", tuple(uniq))
+            return None
+        if base[0] == "call" and base[1][0] == "name" and base[1][1] in self.m.classes and not base[3]:
+            fields = self._record_fields(base[1][1])
+            if fields is not None and attr in fields and fields[attr] < len(base[2]):
+                return base[2][fields[attr]]
+        return None
 
     def term_in_context(self, e):
         """Term of an expression that may sit inside comprehensions: their variables are bound to the
